@@ -590,7 +590,7 @@ DIM_SETTERS = {
     ("sample", "offset"): lambda rng: P.pick(rng, [None, 0, 1.5, -1]),
     ("range", "label"): lambda rng: P.pick(rng, P.LABELS),
     ("range", "unit"): lambda rng: P.pick(rng, [None, "s", "ms", "m V"]),
-    ("range", "ticks"): lambda rng: [float(rng.randint(-2, 2)) + 0.5 * j for j in range(rng.randint(1, 5))],
+    ("range", "ticks"): lambda rng: (lambda b, n: [b + 0.5 * j for j in range(n)])(float(rng.randint(-2, 2)), rng.randint(1, 5)),
     ("set", "labels"): lambda rng: [P.pick(rng, P.TEXT_POOL) for _ in range(rng.randint(0, 4))],
 }
 
@@ -702,6 +702,8 @@ class LinkAppend:
             r = run.call(lambda: lst.append(th))
         run.expect_ok(r, "link_append_" + attr)
         ml = getattr(owner, attr)
+        if any(x is t for x in ml):
+            run.link_path_changed()
         ml[:] = [x for x in ml if x is not t] + [t]
         run.stats["links_made"] += 1
         return res(OK, touch={owner.id: "may"}, target=owner)
@@ -750,11 +752,7 @@ class LinkRemove:
         r = run.call(lambda: lst.__delitem__(key))
         run.expect_ok(r, "link_remove_" + attr)
         del ml[pos]
-        if not ml and run.profile.masked("stale_linklist_handle"):
-            # known finding F14: other live handles of the owner keep a stale view of a link list
-            # that was emptied (its HDF5 group is removed); do not use them afterwards
-            run.pool.pop(id(owner), None)
-            run.stats["masked:stale_linklist_handle"] += 1
+        run.link_path_changed(owner, emptied=not ml)
         run.stats["links_removed"] += 1
         return res(OK, touch={owner.id: "may"}, target=owner, )
 
@@ -778,6 +776,7 @@ class SetMetadata:
         sh = run.R(s, o.get("sv", 0))
         run.expect_ok(run.call(lambda: setattr(hh, "metadata", sh)), "set_metadata")
         hd.metadata = s
+        run.link_path_changed()
         run.stats["metadata_links"] += 1
         return res(OK, touch={hd.id: "may"}, target=hd)
 
@@ -801,6 +800,7 @@ class DelMetadata:
         hh = run.R(hd, o.get("via", 0))
         run.expect_ok(run.call(lambda: delattr(hh, "metadata")), "del_metadata")
         hd.metadata = None
+        run.link_path_changed()
         return res(OK, touch={hd.id: "may"}, target=hd)
 
 
@@ -843,11 +843,13 @@ class SetRole:
                 return res(NOOP if r[0] == "ok" else REFUSED)
             run.expect_ok(r, "set_extents_none")
             owner.extents = None
+            run.link_path_changed()
             return res(OK, touch={owner.id: "must"}, target=owner)
         th = run.R(t, o.get("tv", 0))
         attr = {"positions": "positions", "extents": "extents", "feature_data": "data"}[role]
         run.expect_ok(run.call(lambda: setattr(oh, attr, th)), "set_" + role)
         setattr(owner, attr, t)
+        run.link_path_changed()
         tid = owner.id
         return res(OK, touch={tid: "must"}, target=owner)
 
@@ -896,6 +898,7 @@ class Delete:
         closure = M.ownership_closure(m)
         M.delete_objects(run.fs_of(parent).model if parent.kind != "file" else parent, closure)
         run.pool = {k: v for k, v in run.pool.items() if k not in set(id(x) for x in closure)}
+        run.link_path_changed()
         run.stats["deletes"] += 1
         if linked:
             run.stats["delete_of_linked_entity"] += 1
